@@ -625,6 +625,16 @@ def reindex_axis(self, values, axis=0, fill_value=np.nan, raise_error=False, met
 
     # Get indices
     ax = self.axes[axis]
+
+    # nothing to take from: every requested label is missing (an empty axis cannot be indexed, not even with clipping)
+    if ax.size == 0 and np.size(values) > 0:
+        if raise_error:
+            raise IndexError("Some values where not found in the axis: {}".format(values))
+        pos = self.dims.index(ax.name)
+        newshape = self.shape[:pos] + (np.size(values),) + self.shape[pos+1:]
+        newaxes = [a.copy() if a.name != ax.name else Axis(values, ax.name, tol=ax.tol, **ax.attrs) for a in self.axes]
+        return self._constructor(np.full(newshape, fill_value), newaxes, **self.attrs)
+
     # indices = ax.loc(values, mode='clip', side=method)
     indices = locate_many(ax.values, values, side=method or 'left')
     newobj = self.take_axis(indices, axis, indexing='position')
